@@ -50,13 +50,20 @@ def plan(tier, seed):
         for pi, par in enumerate(E2.parent_vectors(n)):
             for first in range(len(ATOM_PAL)):
                 tasks.append(("atoms", ("atoms", n, pi, first)))
+    nl = 7 if thorough else 6
+    scopes.append({"name": "lenient-spellings", "n_max": nl, "r_max": 2,
+                   "desc": "non-standard spellings the encoder accepts: ring digits after the k-th branch, trailing "
+                           "parenthesised branches (read by the reader in tolerant mode)", "tables": [RELAXED]})
+    for n in range(3, nl + 1):
+        for pi, par in enumerate(E2.parent_vectors(n)):
+            tasks.append(("lenient-spellings", ("lenient", n, pi)))
     scopes.append({"name": "fragments", "desc": "every ordered pair/triple of the written forms with <= 3 atoms, r <= 1 over "
                                                 "{C,=,O,[O-]}, joined by '.'", "tables": ["default"]})
     for k in range(16):
         tasks.append(("fragments", ("frags", k, 16, thorough)))
     return {"scopes": scopes, "tasks": tasks,
             "bounds": {"topology": [nt, rt], "bond_orders_n": nb, "atoms_n": na},
-            "weight": lambda t: t[1][1] if t[1][0] in ("topo", "bonds", "atoms") else 3}
+            "weight": lambda t: t[1][1] if t[1][0] in ("topo", "bonds", "atoms", "lenient") else 3}
 
 
 _SF = None
@@ -76,13 +83,13 @@ def use(table):
         _CUR[0] = key
 
 
-def check(smi, table, r, want_accept=False):
+def check(smi, table, r, want_accept=False, tolerant=False):
     """one round trip under `table`; returns the SELFIES string or None"""
     use(table)
     r.evaluations += 1
     r.transitions += 1
     try:
-        ain = smiread.read_smiles(smi, ring_across_dot=False)
+        ain = smiread.read_smiles(smi, tolerant=tolerant, ring_across_dot=False)
     except smiread.SmiError as e:
         r.cov["generated form outside the reader's strict grammar"] += 1
         return None
@@ -137,6 +144,15 @@ def run(task):
                     if max(deg) <= 4:
                         check(smi, "default", r, want_accept=True)
                     last = (smi, x)
+    elif kind == "lenient":
+        _, n, pi = arg
+        par = list(E2.parent_vectors(n))[pi]
+        at, bt = ["C"] * n, [""] * n
+        for rings in E2.ring_sets(n, par, 2):
+            r.states += 1
+            for ds, pl in E2.lenient_variants(n, par, rings):
+                smi = E2.write(n, par, rings, at, bt, digit_slot=ds, paren_last=pl)
+                last = (smi, check(smi, RELAXED, r, want_accept=True, tolerant=True))
     elif kind == "bonds":
         _, n, pi = arg
         par = list(E2.parent_vectors(n))[pi]
